@@ -18,6 +18,7 @@ RULE = (
     "described-grain boundaries and the tail. VMDK(fh).read and read_sectors must equal the model. Non-trivial = a request "
     "spans >= 2 grains of different kind or non-adjacent physical position, or touches the last partial grain or the tail "
     "past the last 16-sector multiple."
+    " Embedded descriptors that fill their area to the last byte (any header attribute last, with or without a final newline); images also opened behind gzip.open() on a real file, through a minimal file object, or by a second reader on the same handle after the first was dropped; a second process variant runs with the package's debug logging switched on."
 )
 ASSUMPTIONS = [
     "allocated grains live at sector >= 2 (GTE 0/1 are the unallocated/zero sentinels of the format)",
